@@ -49,12 +49,21 @@ fn len_class(n: usize) -> String {
 
 /// returns outcome class
 fn check_one(fi: usize, data: &[u8], descr: &dyn Fn() -> Value, t: &mut Tally) {
+    check_one_after(fi, data, descr, t, None)
+}
+
+fn check_one_after(fi: usize, data: &[u8], descr: &dyn Fn() -> Value, t: &mut Tally, after: Option<&str>) {
     t.evaluations += 1;
     let f = filter(fi);
     let fail = |t: &mut Tally, kind: &str, detail: String| {
         let mut devs = vec![format!("filter={}", FILTERS[fi])];
         if !data.is_empty() {
             devs.push(len_class(data.len()));
+        }
+        let mut detail = detail;
+        if let Some(a) = after {
+            devs.push(format!("after={}", a.split(',').next().unwrap_or("")));
+            detail = format!("right after {} on the same thread: {}", a, detail);
         }
         t.fail("c16", kind, devs, detail, descr());
     };
@@ -139,6 +148,35 @@ fn gen_structured(kind: &str, a: u64, b: u64) -> Vec<u8> {
         }
         _ => vec![],
     }
+}
+
+/// earlier calls for the history engine: (label, filter, bytes to decode)
+fn priors() -> Vec<(String, usize, Vec<u8>)> {
+    let prior_bufs: Vec<Vec<u8>> = vec![gen_structured("lcg", 5, 1000), gen_structured("run", 0x41, 5000), gen_structured("period", 3, 300)];
+    let mut priors: Vec<(String, usize, Vec<u8>)> = vec![]; // (label, filter, bytes to decode)
+    for pfi in 0..FILTERS.len() {
+        let f = filter(pfi);
+        for (bi, pb) in prior_bufs.iter().enumerate() {
+            let Ok(Ok(enc)) = catch(|| encode(pb, &f)) else { continue };
+            let n = enc.len();
+            let mut cuts = vec![1, 2, 5, n / 4, n / 2, 3 * n / 4, n.saturating_sub(2), n.saturating_sub(1)];
+            cuts.sort();
+            cuts.dedup();
+            for c in cuts {
+                if c < n {
+                    priors.push((format!("decode({}, own encoding of buffer {} cut to {} of {} bytes)", FILTERS[pfi], bi, c, n), pfi, enc[..c].to_vec()));
+                }
+            }
+            let mut flipped = enc.clone();
+            let mid = n / 2;
+            flipped[mid] ^= 0x55;
+            priors.push((format!("decode({}, own encoding of buffer {} with byte {} changed)", FILTERS[pfi], bi, mid), pfi, flipped));
+            priors.push((format!("decode({}, own encoding of buffer {} intact)", FILTERS[pfi], bi), pfi, enc));
+        }
+        priors.push((format!("decode({}, 50 bytes 0xff)", FILTERS[pfi]), pfi, vec![0xff; 50]));
+        priors.push((format!("decode({}, empty)", FILTERS[pfi]), pfi, vec![]));
+    }
+    priors
 }
 
 pub fn run(tier: Tier, seed: u64, tally: &mut Tally) -> CheckMeta {
@@ -253,6 +291,36 @@ pub fn run(tier: Tier, seed: u64, tally: &mut Tally) -> CheckMeta {
     for p in parts {
         tally.merge(p);
     }
+    // (c) histories: the same round trips right after other calls on the same thread (failed decodes of damaged
+    // data of every filter, successful calls on other data); the verdict of a round trip must not depend on them
+    let priors = priors();
+    let subjects: Vec<(&'static str, u64, u64)> = vec![("run", 0, 0), ("run", 0, 1), ("run", 0x41, 300), ("lcg", 9, 1000), ("period", 2, 5000), ("ramp", 3, 256)];
+    let n_priors = priors.len();
+    let parts: Vec<Tally> = priors
+        .par_iter()
+        .enumerate()
+        .map(|(pi, (label, pfi, bytes))| {
+            let mut t = Tally::new();
+            for &(kind, a, b) in &subjects {
+                let data = gen_structured(kind, a, b);
+                for fi in 0..FILTERS.len() {
+                    if fi >= 5 && data.len() % 4 != 0 {
+                        continue;
+                    }
+                    // the earlier call, on this very thread; its own result is not judged here
+                    let pf_ = filter(*pfi);
+                    let _ = catch(|| decode(bytes, &pf_));
+                    check_one_after(fi, &data, &|| json!({"filter": fi, "gen": kind, "a": a, "b": b, "prior": pi}), &mut t, Some(label));
+                    t.distinct.insert(fnv_mix(fnv_mix(fnv(&data), fi as u64), pi as u64 + 1000));
+                }
+            }
+            t
+        })
+        .collect();
+    for p in parts {
+        tally.merge(p);
+    }
+    tally.notes.push(format!("histories: {} earlier calls x {} subjects x {} filters", n_priors, subjects.len(), FILTERS.len()));
     tally.sample(json!({"filter": "LZW", "gen": "period", "a": 3, "b": 5000}));
     tally.sample(json!({"filter": "Flate", "gen": "lcg", "a": seed, "b": 65536}));
     tally.states = tally.evaluations;
@@ -262,7 +330,7 @@ pub fn run(tier: Tier, seed: u64, tally: &mut Tally) -> CheckMeta {
         prop: "C16",
         level: "model_checking",
         rule: format!(
-            "every byte string of length 0..={} x {{ASCIIHex, ASCII85, LZW(EarlyChange 0), Flate}} enumerated exhaustively (distinct by construction), plus {} structured buffers (runs 0..300 and 2^k±1 up to 65537, ramps, period-p patterns, LCG buffers seeded by VERIF_SEED) x 4 filters and x 4 parameter variants (LZW EarlyChange 1, Flate/LZW with PNG predictor, Flate with TIFF predictor: refused by the encoder or round-tripping), distinct by content hash; each case = pdf::enc::encode, pdf::enc::decode, and an independent reference decoder on the same bytes",
+            "every byte string of length 0..={} x {{ASCIIHex, ASCII85, LZW(EarlyChange 0), Flate}} enumerated exhaustively (distinct by construction), plus {} structured buffers (runs 0..300 and 2^k±1 up to 65537, ramps, period-p patterns, LCG buffers seeded by VERIF_SEED) x 4 filters and x 4 parameter variants (LZW EarlyChange 1, Flate/LZW with PNG predictor, Flate with TIFF predictor: refused by the encoder or round-tripping), distinct by content hash; each case = pdf::enc::encode, pdf::enc::decode, and an independent reference decoder on the same bytes. Histories: every round trip of 6 subject buffers x 8 filters repeated on the same thread right after each of the earlier calls (decode of own encodings cut at 8 positions, with one byte changed, intact, of 0xff bytes, of nothing, for every filter): same verdicts",
             maxlen,
             structured.len()
         ),
@@ -291,5 +359,15 @@ pub fn replay(case: &Value, tally: &mut Tally) {
     };
     println!("filter={} data({} bytes)={}", FILTERS[fi], data.len(), show_bytes(&data));
     let c = case.clone();
+    if let Some(pi) = case["prior"].as_u64() {
+        let ps = priors();
+        let (label, pfi, bytes) = &ps[pi as usize];
+        println!("earlier call on this thread: {}", label);
+        let pf_ = filter(*pfi);
+        let r = catch(|| decode(bytes, &pf_));
+        println!("  -> {}", match r { Ok(Ok(v)) => format!("Ok({} bytes)", v.len()), Ok(Err(e)) => format!("Err({})", err_variant(&e)), Err((l, _)) => format!("panic at {}", l) });
+        check_one_after(fi, &data, &move || c.clone(), tally, Some(label));
+        return;
+    }
     check_one(fi, &data, &move || c.clone(), tally);
 }
